@@ -170,6 +170,10 @@ func corpus(prop string) []NamedScenario {
 	}
 	in("create-embedded", d, func(s *Std) J { return s.act("Create", J{"object": note(s), "to": s.Alice.ID}) })
 	in("create-iri", d, func(s *Std) J { return s.act("Create", J{"object": s.RNote, "to": s.Alice.ID}) })
+	in("create-iri-alias", d, func(s *Std) J { return s.act("Create", J{"object": "https://" + hostR + "/@dave/9", "to": s.Alice.ID}) }, func(s *Std) {
+		// the object is named by an address under which the peer serves the document with its canonical id
+		s.W.Remote = append(s.W.Remote, DocSpec{"https://" + hostR + "/@dave/9", mustJSON(J{"@context": asCtx, "type": "Note", "id": s.RNote, "attributedTo": s.Dave, "content": "remote"})})
+	})
 	in("update", d, func(s *Std) J { return s.act("Update", J{"object": note(s)}) })
 	in("delete", d, func(s *Std) J { return s.act("Delete", J{"object": s.RNote}) })
 	in("follow-accept", d, func(s *Std) J { return s.act("Follow", J{"object": s.Alice.ID}) })
@@ -313,6 +317,19 @@ func corpus(prop string) []NamedScenario {
 	add("get/handler", func() *RunSpec {
 		st := newStd(d)
 		return mk(prop, st, handlerReq("r0", hostA, st.Note1))
+	})
+	add("get/handler-missing-query", func() *RunSpec {
+		st := newStd(d)
+		st.W.Servers[0].GetMissing = "nil"
+		rq := handlerReq("r0", hostA, "https://"+hostA+"/n/none")
+		rq.Path += "?page=true"
+		return mk(prop, st, rq)
+	})
+	add("get/handler-query", func() *RunSpec {
+		st := newStd(d)
+		rq := handlerReq("r0", hostA, st.Note1)
+		rq.Path += "?view=full"
+		return mk(prop, st, rq)
 	})
 	add("get/handler-missing", func() *RunSpec {
 		st := newStd(d)
